@@ -83,6 +83,8 @@ func gen(r *harn.Rng, tier string) interface{} {
 				o.Ctx = "precause" // cancelled with a cause: the error is still the context's error (ctx.Err())
 			} else if r.Bool(0.3) {
 				o.Ctx = "prepast" // cancelled before its deadline and used after it: ctx.Err() stays Canceled
+			} else if r.Bool(0.3) {
+				o.Ctx = "prezero" // a deadline at the zero time: expired from the start, ctx.Err() is DeadlineExceeded
 			}
 		case 1, 2, 3:
 			o.Ctx, o.CtxNs = "cancel", gaps[r.Intn(len(gaps))]
@@ -221,6 +223,9 @@ func run(env *simrt.Env, sci interface{}) {
 			cancel()
 			env.Sleep(2 * time.Millisecond)
 			res.preDone = true
+		case "prezero":
+			ctx, cancel = context.WithDeadline(context.Background(), time.Time{})
+			res.preDone = true
 		case "precause":
 			var cc context.CancelCauseFunc
 			ctx, cc = context.WithCancelCause(context.Background())
@@ -303,8 +308,8 @@ func run(env *simrt.Env, sci interface{}) {
 		if faulty[e] {
 			return res
 		}
-		if res.n == 0 && res.preDone && !errors.Is(res.err, context.Canceled) {
-			env.Fail("C17/context-error-not-reported", "end %d %s with an already cancelled context returned (0, %v), want the context's error", e, opName(write), res.err)
+		if res.n == 0 && res.preDone && !errors.Is(res.err, ctx.Err()) {
+			env.Fail("C17/context-error-not-reported", "end %d %s with a context that was done beforehand returned (0, %v), want the context's error (%v)", e, opName(write), res.err, ctx.Err())
 			return res
 		}
 		if res.n == 0 && errors.Is(res.err, os.ErrDeadlineExceeded) && !res.userDL {
